@@ -3,6 +3,7 @@
 package handshake
 
 import (
+	"sync/atomic"
 	"bytes"
 	crand "crypto/rand"
 	"fmt"
@@ -114,6 +115,9 @@ func c20Run(r *verifkit.Run, pl c20Plan, prev *c20Session, rng *rand.Rand) (comp
 	}
 	if r1.nonce1 != m1.nonce1 || r1.protocol1 != m1.protocol1 {
 		changed = true
+		if pl.Act != 1 {
+			r.Violation("untampered-act1-decodes-differently", fmt.Sprintf("act 1 was not interfered with but decodes to nonce %d protocol %q instead of nonce %d protocol %q", r1.nonce1, r1.protocol1, m1.nonce1, m1.protocol1), verifkit.JSON(pl), nil)
+		}
 	}
 	expected = pl.P1 == pl.P2 && !changed
 
@@ -137,6 +141,9 @@ func c20Run(r *verifkit.Run, pl c20Plan, prev *c20Session, rng *rand.Rand) (comp
 	}
 	if r2.nonce2 != m2.nonce2 || r2.challenge != m2.challenge || r2.protocol2 != m2.protocol2 {
 		changed = true
+		if pl.Act != 2 {
+			r.Violation("untampered-act2-decodes-differently", fmt.Sprintf("act 2 was not interfered with but decodes to nonce %d instead of nonce %d (or to another challenge / protocol)", r2.nonce2, m2.nonce2), verifkit.JSON(pl), nil)
+		}
 	}
 	expected = pl.P1 == pl.P2 && !changed
 	ia3, e := ia1.Next().Next(&r2)
@@ -159,6 +166,9 @@ func c20Run(r *verifkit.Run, pl c20Plan, prev *c20Session, rng *rand.Rand) (comp
 	}
 	if r3.challenge != m3.challenge {
 		changed = true
+		if pl.Act != 3 {
+			r.Violation("untampered-act3-decodes-differently", "act 3 was not interfered with but decodes to another challenge", verifkit.JSON(pl), nil)
+		}
 	}
 	expected = pl.P1 == pl.P2 && !changed
 	if e := ra2.Next().FinalizeHandshake(&r3); e != nil {
@@ -507,4 +517,52 @@ func TestVerif_C20_EdgeNonces(t *testing.T) {
 		}
 	}
 	r.Count("nonce_pairs", int64(len(vals)*len(vals)))
+}
+
+// c20Concurrent runs g goroutines, each completing k honest handshakes between
+// peers of the same protocol through the wire encoding, all at the same time in
+// one process (a node answers many peers at once). Every one must complete.
+func c20Concurrent(r *verifkit.Run, g, k int) {
+	var wg sync.WaitGroup
+	var done, failed int64
+	start := make(chan struct{})
+	for w := 0; w < g; w++ {
+		wg.Add(1)
+		go func(w int) {
+			defer wg.Done()
+			<-start
+			proto := c20Protocols[w%3] // "keep"
+			for i := 0; i < k; i++ {
+				pl := c20Plan{P1: proto, P2: proto, Nonce1: "crand", Nonce2: "crand", Act: 0, Mode: "none"}
+				completed, _, stage, s, err := c20Run(r, pl, nil, nil)
+				atomic.AddInt64(&done, 1)
+				if !completed {
+					if atomic.AddInt64(&failed, 1) <= 3 {
+						r.Violation("concurrent:honest-handshake-failed", fmt.Sprintf("an honest handshake between peers of protocol %q, run while %d others were in progress, failed at stage %q (err %v; nonces %d/%d)", proto, g-1, stage, err, s.n1, s.n2), fmt.Sprintf("goroutine %d handshake %d", w, i), nil)
+					}
+				}
+			}
+		}(w)
+	}
+	close(start)
+	wg.Wait()
+	r.Count("concurrent_handshakes", done)
+	r.Count("concurrent_handshakes_failed", failed)
+	for i := 0; i < int(done) && i < 64; i++ {
+		r.Case(fmt.Sprintf("concurrent honest handshake slot %d", i), true)
+	}
+}
+
+func TestVerif_C20_Concurrent(t *testing.T) {
+	r := verifkit.Start(t, "C20", "concurrent")
+	defer r.Finish()
+	r.SetRule("16 goroutines x N honest handshakes (same protocol on both sides, every act through Marshal/Unmarshal) running at the same time in one process; every handshake must complete and every untouched act must decode to what was sent")
+	c20Concurrent(r, 16, r.N(4000, 60000))
+}
+
+func TestVerif_C20_ConcurrentRace(t *testing.T) {
+	r := verifkit.Start(t, "C20", "concurrent-race")
+	defer r.Finish()
+	r.SetRule("the concurrent part under the race detector (8 goroutines x N honest handshakes); a race in the handshake package is a violation")
+	c20Concurrent(r, 8, r.N(500, 5000))
 }
